@@ -97,7 +97,7 @@ def Lib.dropWatch (l : Lib) (w : Watch) : Lib :=
 
 inductive RemovePathRes
   | err (e : Err)
-  | panic
+  | panic (l : Lib)       -- state at the moment of the nil dereference
   | ok (l : Lib) (wds : List Nat)
 
 /-- `watches.removePath` -/
@@ -107,7 +107,11 @@ def Lib.removePath (l : Lib) (arg : Path) : RemovePathRes :=
   | none => .err .nonExistentWatch
   | some wd =>
     match alLookup wd l.wdT with
-    | none => if recurse then .panic else .panic   -- `watch.recurse` on a nil *watch
+    | none =>
+      -- nil *watch: with `recurse` the first test dereferences it; otherwise both tables have
+      -- already been updated when `watch.recurse` is read
+      if recurse then .panic l
+      else .panic { l with pathT := alErase path l.pathT, wdT := alErase wd l.wdT }
     | some w =>
       if recurse && !w.recurse then .err .badRecurse
       else
@@ -134,7 +138,7 @@ def rmAll : Env → List Nat → Env × List Sys × Option Err
 def Lib.remove (l : Lib) (env : Env) (arg : Path) : Lib × Env × Out :=
   match l.removePath arg with
   | .err e => (l, env, { ret := some e })
-  | .panic => (l, env, { panic := true })
+  | .panic l' => (l', env, { panic := true })
   | .ok l' wds =>
     let (env', sys, e) := rmAll env wds
     (l', env', { ret := e, sys := sys })
@@ -188,49 +192,67 @@ inductive Branch
   | deleteSelf | plain | zeroOp
 deriving DecidableEq, Repr
 
-/-- `handleEvent` for one record, non-recursive watches. Returns the event to send (if any). -/
-def Lib.handle (l : Lib) (env : Env) (r : Raw) : Lib × Env × Out × Branch :=
+/-- result of handling one record -/
+structure HRes where
+  lib : Lib
+  env : Env
+  out : Out
+  br  : Branch
+
+/-- the name an event for record `r` on watch `w` carries -/
+def nameOf (w : Watch) (r : Raw) : Path :=
+  if r.len > 0 then w.path ++ slash :: trimNul r.name else w.path
+
+def ignoredOrUnmount (m : BitVec 32) : Bool := (m &&& IN_IGNORED) != 0#32 || (m &&& IN_UNMOUNT) != 0#32
+
+/-- tail of `handleEvent`: DELETE_SELF suppression when the parent is listed, then `newEvent`;
+`sendEvent` drops `Op == 0` -/
+def Lib.emit (l : Lib) (env : Env) (out : Out) (br : Branch) (w : Watch) (r : Raw) : HRes :=
+  if (r.mask &&& IN_DELETE_SELF) != 0#32 && alHas (dir w.path) l.pathT then ⟨l, env, out, .deleteSelfParentWatched⟩
+  else
+    let res := l.newEvent (nameOf w r) r.mask r.cookie
+    if res.2.op == 0#32 then ⟨res.1, env, out, if br == .plain then .zeroOp else br⟩
+    else ⟨res.1, env, { out with events := [res.2] }, br⟩
+
+/-- the `IN_MOVE_SELF` branch for a non-recursive watch: `w.remove(watch.path)`; every error but
+`ErrNonExistentWatch` is forwarded to Errors; then the common tail -/
+def Lib.afterMoveSelf (l1 : Lib) (env : Env) (w : Watch) (r : Raw) : HRes :=
+  let res := l1.remove env w.path
+  if res.2.2.panic then ⟨res.1, res.2.1, res.2.2, .moveSelfRemoved⟩
+  else match res.2.2.ret with
+    | none => res.1.emit res.2.1 { sys := res.2.2.sys } .moveSelfRemoved w r
+    | some .nonExistentWatch => res.1.emit res.2.1 { sys := res.2.2.sys } .moveSelfRemoved w r
+    | some e => res.1.emit res.2.1 { sys := res.2.2.sys, errors := [e] } .moveSelfError w r
+
+/-- the state after the `IN_DELETE_SELF` clean-up -/
+def Lib.afterDeleteSelf (l : Lib) (w : Watch) (r : Raw) : Lib :=
+  if test r.mask IN_DELETE_SELF then l.dropWatch w else l
+
+/-- `handleEvent` for one record (non-recursive watches; a recursive watch only reaches the
+`moveSelfRecursive` exit here, the rest of recursion is in `Model/Recurse.lean`). -/
+def Lib.handle (l : Lib) (env : Env) (r : Raw) : HRes :=
   match alLookup r.wd l.wdT with
-  | none => (l, env, {}, .unknownWd)
+  | none => ⟨l, env, {}, .unknownWd⟩
   | some w =>
-    let name := if r.len > 0 then w.path ++ slash :: trimNul r.name else w.path
-    if (r.mask &&& IN_IGNORED) != 0#32 || (r.mask &&& IN_UNMOUNT) != 0#32 then
-      (l.dropWatch w, env, {}, .ignored)
-    else
-      let l1 := if test r.mask IN_DELETE_SELF then l.dropWatch w else l
-      -- MOVE_SELF: remove the watch (kernel too)
-      let (l2, env2, out2, br2, stop) :=
-        if test r.mask IN_MOVE_SELF then
-          if w.recurse then (l1, env, ({} : Out), Branch.moveSelfRecursive, true)
-          else
-            let (l', env', o) := l1.remove env w.path
-            match o.ret with
-            | some .nonExistentWatch => (l', env', { o with ret := none }, Branch.moveSelfRemoved, false)
-            | some e => (l', env', { o with ret := none, errors := [e] }, Branch.moveSelfError, false)
-            | none => (l', env', o, Branch.moveSelfRemoved, false)
-        else (l1, env, ({} : Out), Branch.plain, false)
-      if stop then (l2, env2, out2, br2)
-      else if out2.panic then (l2, env2, out2, br2)
-      else if (r.mask &&& IN_DELETE_SELF) != 0#32 && alHas (dir w.path) l2.pathT then
-        (l2, env2, out2, .deleteSelfParentWatched)
-      else
-        let (l3, ev) := l2.newEvent name r.mask r.cookie
-        let br := if br2 != .plain then br2 else if test r.mask IN_DELETE_SELF then .deleteSelf else .plain
-        if ev.op == 0#32 then (l3, env2, out2, if br == .plain then .zeroOp else br)
-        else (l3, env2, { out2 with events := [ev] }, br)
+    if ignoredOrUnmount r.mask then ⟨l.dropWatch w, env, {}, .ignored⟩
+    else if test r.mask IN_MOVE_SELF then
+      if w.recurse then ⟨l.afterDeleteSelf w r, env, {}, .moveSelfRecursive⟩
+      else (l.afterDeleteSelf w r).afterMoveSelf env w r
+    else (l.afterDeleteSelf w r).emit env {} (if test r.mask IN_DELETE_SELF then .deleteSelf else .plain) w r
 
 /-- one record in `readEvents`: overflow report, then `handleEvent`, then `sendEvent` -/
-def Lib.stepRecord (l : Lib) (env : Env) (r : Raw) : Lib × Env × Out × Branch :=
-  let (l', env', o, b) := l.handle env r
-  if (r.mask &&& IN_Q_OVERFLOW) != 0#32 then (l', env', { o with errors := .overflow :: o.errors }, b)
-  else (l', env', o, b)
+def Lib.stepRecord (l : Lib) (env : Env) (r : Raw) : HRes :=
+  let h := l.handle env r
+  if (r.mask &&& IN_Q_OVERFLOW) != 0#32 then { h with out := { h.out with errors := .overflow :: h.out.errors } }
+  else h
 
+/-- a whole batch, front to back; stops at a panic -/
 def Lib.stepRecords (l : Lib) (env : Env) : List Raw → Lib × Env × Out × List Branch
   | [] => (l, env, {}, [])
   | r :: rs =>
-    let (l1, env1, o1, b) := l.stepRecord env r
-    if o1.panic then (l1, env1, o1, [b]) else
-    let (l2, env2, o2, bs) := Lib.stepRecords l1 env1 rs
-    (l2, env2, o1.append o2, b :: bs)
+    let h := l.stepRecord env r
+    if h.out.panic then (h.lib, h.env, h.out, [h.br]) else
+    let rest := Lib.stepRecords h.lib h.env rs
+    (rest.1, rest.2.1, h.out.append rest.2.2.1, h.br :: rest.2.2.2)
 
 end Fsn
